@@ -182,6 +182,15 @@ AUDITED = {
 
 def r73(ctx) -> None:
     R = ctx.rule('R7.3', 'direct QuotedString / AString constructions', 4)
+    # AString.__bytes__: when the value is not an astring atom, does it fall
+    # back to String.build (quoted-or-literal, R7.1) or to a bare QuotedString?
+    asb = ctx.proj.cls('pymap/parsing/specials/astring.py',
+                       'AString').own_method('__bytes__')
+    astring_total = asb is not None and any(
+        call_name(c) == 'build' and txt(c.func.value) == 'String'
+        and c.args and txt(c.args[0]) == 'self.value'
+        for c in calls_in(asb.node)) and not any(
+        call_name(c) == 'QuotedString' for c in calls_in(asb.node))
     for f in ctx.proj.all_funcs('pymap/'):
         if 'QuotedString(' not in f.module.src and \
                 'AString(' not in f.module.src:
@@ -210,6 +219,9 @@ def r73(ctx) -> None:
                     v2 = v2.args[0]
                 if const_value(v2)[0]:
                     safe = 'constant'
+                elif nm == 'AString' and astring_total:
+                    safe = 'AString.__bytes__ serialises non-atoms through ' \
+                           'String.build (R7.1)'
                 elif isinstance(v2, ast.Call) and \
                         call_name(v2) == 'modutf7_encode':
                     safe = 'modified UTF-7 output (R7.4)'
